@@ -64,14 +64,17 @@ func init() {
 	}
 	registerProp(&PropSpec{
 		ID: "C01", Title: "No input crashes, hangs or over-reads any lexer, parser or AST method",
-		Sel: append(append([]Sel{}, lexers...), Sel{Pattern: "js.Parser.*", Levels: "F", OnlyTags: []string{"depth"}}),
+		Sel: append(append([]Sel{}, lexers...), Sel{Pattern: "js.Parser.*", Levels: "F", OnlyTags: []string{"depth"}},
+			Sel{Pattern: "css.Parser.*", Levels: "T", OnlyTags: []string{"C01"}},
+			// zero-annotation sweep over every function of the repository: a pointer obtained from a comma-ok type assertion is
+			// dereferenced only where ok holds
+			Sel{Pattern: "*", Levels: "S", Kinds: []string{"commaok"}, Except: []string{"*.init"}}),
 		Analyses: []string{"depth"},
 		NotDecided: []string{
-			"linear progress of css.Parser.Next (monotone cursor, memory safety and state-stack typing are proved; the lexers' and the JSON parser's progress measures are proved)",
-			"memory safety (nil, bounds) and termination of the js.Parser functions and of the AST printing methods (JS/String/JSON): for the JS parser only the recursion-depth argument is decided (every call-graph cycle passes through a depth guard; guards recurse only under their increment and limit; no parser function lowers a nesting counter)",
+			"memory safety (nil, bounds) and termination of the js.Parser functions and of the AST printing methods (JS/String/JSON): decided for all of them is only the annotation-free obligation that the result of a comma-ok type assertion is not dereferenced where ok is false; for the JS parser additionally the recursion-depth argument (every call-graph cycle passes through a depth guard; guards recurse only under their increment and limit; no parser function lowers a nesting counter)",
 			"stack depth of the tree-recursive AST methods (Walk, JS, String, JSON, exprToBinding): declared structural recursion over a tree whose depth the parser limits bound (listed as assumptions)",
 		},
-		Technique: "deductive verification: safety contracts (cursor invariant, peek-before-move precondition, progress measure, sticky end) on every lexer/parser function; recursion-depth argument for js.Parse (call-graph cycle check modulo declared depth guards + at-call and counter-monotonicity VCs); VCs from go/ssa discharged by z3/cvc5",
+		Technique: "deductive verification: safety contracts (cursor invariant, peek-before-move precondition, progress measure, sticky end) on every lexer/parser function; progress measure of the CSS grammar stream (2*unread bytes + open blocks + 2*pending close) strictly decreasing on every non-error css.Parser.Next; recursion-depth argument for js.Parse (call-graph cycle check modulo declared depth guards + at-call and counter-monotonicity VCs); VCs from go/ssa discharged by z3/cvc5",
 	})
 	registerProp(&PropSpec{
 		ID: "C02", Title: "Tokens are faithful, ordered, non-empty slices of the input",
@@ -121,9 +124,10 @@ func init() {
 		Sel: []Sel{
 			{Pattern: "strconv.ParseInt", Levels: "SF"}, {Pattern: "strconv.ParseUint", Levels: "SF"},
 			{Pattern: "strconv.LenInt", Levels: "SF"}, {Pattern: "strconv.LenUint", Levels: "SF"}, {Pattern: "strconv.AppendInt", Levels: "SF"},
+			{Pattern: "strconv.ParseFloat", Levels: "SF"},
 		},
 		NotDecided: []string{
-			"ParseFloat/ParseDecimal/AppendFloat values and accuracy (floating point is outside the technique)",
+			"ParseFloat/ParseDecimal/AppendFloat values and accuracy (floating point is outside the technique; for ParseFloat the number of bytes consumed is decided: sign, digits with at most one dot, optional exponent)",
 			"AppendDecimal integer rendering: contract written (exact sizing, sign byte never overwritten) but 3 of 46 obligations need more than the quick time-out (20-way digit-count x 17-way decimals case analysis); not claimed. The sign defect found there was repaired (KNOWN_FINDINGS.txt)",
 			"AppendNumber/ParseNumber round trip (group-size arithmetic with symbolic divisor; the sizing defect found by reading the obligation was repaired, KNOWN_FINDINGS.txt)",
 		},
@@ -215,11 +219,12 @@ func init() {
 			{Pattern: "css.Parser.Err", Levels: "SF"}, {Pattern: "buffer.NewReader", Levels: "SF"},
 			{Pattern: "json.Parser.Next", Levels: "F", OnlyTags: []string{"C15"}},
 			{Pattern: "js.Lexer.Next", Levels: "F", OnlyTags: []string{"C15"}}, {Pattern: "js.Lexer.consume*", Levels: "F", OnlyTags: []string{"C15"}},
+			{Pattern: "xml.Lexer.Next", Levels: "F", OnlyTags: []string{"C15"}}, {Pattern: "html.Lexer.shiftRawText", Levels: "F", OnlyTags: []string{"C15"}},
 		},
 		NotDecided: []string{
 			"the column (code points since the line start: the []rune conversion is modelled only by its length bounds) and the rendered context/caret string (fmt.Sprintf, strings.Repeat)",
 			"that the scan stops exactly at the offset or inside the character containing it (exit condition of the loop; proved are the invariants: cursor <= offset, cursor at a character boundary, line == 1 + breaks ending before the cursor)",
-			"js.Parse's offset 'cursor minus length of the current token' (the JS parser is outside the verified subset); xml and html lexer errors",
+			"js.Parse's offset 'cursor minus length of the current token' (the JS parser is outside the verified subset)",
 			"NewErrorLexer is trusted for its frame (pure); its body is verified at facet F only (offset inside the input, error carries Position's line)",
 		},
 		Technique: "deductive verification: user-defined recursive spec function lbEnds (line breaks ending before a position) with engine-asserted unfoldings, well-formed-UTF-8 hypothesis as a ghost attribute of the reader, loop invariants of parse.Position; ghost errOff links every error created by NewErrorLexer to the cursor, clauses on json.Parser.Next / js.Lexer.Next / css.Parser.Err bound it to the scanned span; VCs from go/ssa discharged by z3/cvc5",
@@ -239,7 +244,7 @@ func init() {
 		ID: "C10", Title: "JSON parser accepts every valid document and reproduces it",
 		Sel: []Sel{{Pattern: "json.Parser.*", Levels: "STF"}, {Pattern: "json.NewParser", Levels: "S"}},
 		NotDecided: []string{"every document accepted by encoding/json is accepted (needs induction over the JSON grammar against the iterative state machine)"},
-		Technique: "deductive verification: state-stack typing invariant, per-unit push/pop postconditions, skipped-bytes conservation clauses on json.Parser.Next; VCs discharged by z3/cvc5",
+		Technique: "deductive verification: state-stack typing invariant, per-unit push/pop postconditions, skipped-bytes conservation clauses on json.Parser.Next; closed forms of the RFC 8259 number, literal and string tokens (digit-run ends, backslash-parity fold) for the three scanners; VCs discharged by z3/cvc5",
 	})
 	registerProp(&PropSpec{
 		ID: "C11", Title: "XML lexer tokenises well-formed XML like a conforming XML reader",
